@@ -284,6 +284,8 @@ struct DirectCase {
     as_program: bool,
     /// Ctrl-C after k instructions of the direct list (resident-program variant only)
     intr: Option<u64>,
+    /// the list ends with a reference to a line nobody has: the answer is known
+    dangling: bool,
     sched_variant: usize,
     entropy: u64,
 }
@@ -362,8 +364,15 @@ impl Case for DirectCase {
         v.executions = 2;
         v.fingerprint = w0.log_hash ^ w1.log_hash.rotate_left(7);
         v.nontrivial = w0.total_instr > 3;
+        let refused = |t: &[Tok]| matches!(t, [Tok::Err(e)] if e.starts_with("?UNDEFINED LINE"));
         if let Some(f) = w0.fatal.as_ref().or(w1.fatal.as_ref()) {
             v.violation = Some(fatal_violation("C20", f));
+        } else if self.dangling && self.intr.is_none() && (!refused(&t0) || !refused(&t1)) {
+            // both twins run the same interpreter: here the answer is known without a twin
+            v.violation = Some(Violation {
+                key: "C20:direct-dangling-reference".to_string(),
+                detail: format!("{:?} refers to a line that does not exist: expected one ?UNDEFINED LINE report and nothing else, got {:?} (empty store) / {:?} (resident program)", text, t0, t1),
+            });
         } else if o0.budget_hit {
             v.discarded = Some("direct list exceeded the budget".into());
         } else if b0 != b1 {
@@ -435,6 +444,7 @@ impl Case for DirectCase {
             .set("resident_program", program_json(&self.resident))
             .set("direct_lines_before", self.before.clone())
             .set("replies", self.replies.clone())
+            .set("ends_with_dangling_reference", self.dangling)
             .set("interrupt_after_instructions", match self.intr { Some(k) => k.to_string(), None => "none".to_string() })
             .build()
     }
@@ -638,8 +648,28 @@ impl Property for C20 {
             cfg.stop = false;
             // a fresh runtime has not reseeded RND yet, RUN and CLEAR do: legitimately different
             cfg.rnd = false;
-            let list = direct_list(rng, &cfg);
+            let mut list = direct_list(rng, &cfg);
             let as_program = rng.pct(40);
+            // (not behind a remark, which would swallow it)
+            let dangling = !as_program && rng.pct(8) && !list.iter().any(|s| matches!(s, Stmt::Rem(..)));
+            if dangling {
+                // a reference to a line that no resident program has (the highest legal numbers): the
+                // answer is ?UNDEFINED LINE whatever is resident, and nothing of the list runs
+                let t = Target::Abs(*rng.pick(&[65529u16, 65528]));
+                list.push(match rng.below(6) {
+                    0 => Stmt::Goto(t),
+                    1 => Stmt::Gosub(t),
+                    2 => Stmt::Restore(Some(t)),
+                    3 => Stmt::OnGoto(Expr::Int(1), vec![t]),
+                    4 => Stmt::Run(Some(t)),
+                    _ => Stmt::If {
+                        cond: Expr::Int(1),
+                        goto_form: false,
+                        then: Branch::Line(t),
+                        els: None,
+                    },
+                });
+            }
             let mut c2 = GenCfg::swarm(rng);
             c2.size = *rng.pick(&[0usize, 2, 6, 20, 40]);
             let mut resident = render_program(&gen_program(rng, c2));
@@ -697,6 +727,7 @@ impl Property for C20 {
                 as_program,
                 sched_variant: rng.usize(3),
                 entropy: rng.next_u64(),
+                dangling,
                 intr: if !as_program && rng.pct(30) { Some(if rng.pct(25) { 0 } else { rng.below(40) }) } else { None },
             })
         }
@@ -714,7 +745,7 @@ impl Property for C20 {
         }
     }
     fn rule(&self) -> &'static str {
-        "one evaluation = either (60%) a generated program rendered under two layouts (1-5 transformations: monotone renumbering with seeded gaps, inserted REM / ':'-only lines (a remark may take over the branches that aimed at the line it precedes), multi-statement lines split into consecutive lines, unreachable lines appended) and run to completion with CONT on twin runtimes, transcripts and final variables compared with reported line numbers mapped back to the original statement; or (40%) a direct statement list (FOR..NEXT, WHILE..WEND, IF..THEN..ELSE, simple statements, no line references) typed into a fresh runtime and compared with the same list typed with a small / large / compile-error-carrying resident program (dangling branch, stray WEND, open WHILE, lines that do not parse, and combinations) after 0-3 other direct lines (failed, with loops, with syntax errors, refused at compile time with a branch or an open loop in them); a third of the IF lists end with an END inside the branch, or as the one-line program `10 <list>` + RUN; distinct = distinct pair of log fingerprints"
+        "one evaluation = either (60%) a generated program rendered under two layouts (1-5 transformations: monotone renumbering with seeded gaps, inserted REM / ':'-only lines (a remark may take over the branches that aimed at the line it precedes), multi-statement lines split into consecutive lines, unreachable lines appended) and run to completion with CONT on twin runtimes, transcripts and final variables compared with reported line numbers mapped back to the original statement; or (40%) a direct statement list (FOR..NEXT, WHILE..WEND, IF..THEN..ELSE, simple statements, no line references) typed into a fresh runtime and compared with the same list typed with a small / large / compile-error-carrying resident program (dangling branch, stray WEND, open WHILE, lines that do not parse, and combinations) after 0-3 other direct lines (failed, with loops, with syntax errors, refused at compile time with a branch or an open loop in them); a third of the IF lists end with an END inside the branch; 8% of the resident-program comparisons append a reference to line 65529 / 65528, which no resident has, or as the one-line program `10 <list>` + RUN; distinct = distinct pair of log fingerprints"
     }
     fn assumptions(&self) -> Vec<&'static str> {
         vec![
